@@ -41,12 +41,12 @@ Definition any_label (_ : state) (_ : label) : Prop := True.
 
 (** * Part A *)
 Definition hb_stamp (h : hbstate) : option Z :=
-  match h with HSleep _ cr _ | HTrunc _ cr _ _ => Some cr | _ => None end.
+  match h with HSleep _ cr _ | HTrunc _ cr _ _ _ => Some cr | _ => None end.
 Definition has_stamp (s : state) (i : ino) (cr : Z) : Prop :=
   (exists u, content s i = FMeta (Some cr) u) \/ hb_stamp (hb s i) = Some cr.
 
 Record HBInv (c : config) (s : state) : Prop := {
-  HB_trunc : forall i p cr j fcr, hb s i = HTrunc p cr j fcr -> j = i /\ fcr = Some cr;
+  HB_trunc : forall i p cr j fcr sn, hb s i = HTrunc p cr j fcr sn -> j = i /\ fcr = Some cr;
   HB_uniq : forall i j cr, has_stamp s i cr -> has_stamp s j cr -> i = j;
   HB_le : forall i cr, has_stamp s i cr -> cr <= lastcreate s;
   HB_sleep : forall i p cr due, hb s i = HSleep p cr due -> now s <= due + delta c;
@@ -141,7 +141,7 @@ Proof.
     + rewrite !upd_eq in Hs. destruct Hs as [[u Hu]|Hu]; [discriminate|]. cbn in Hu. right. rewrite Ehb. exact Hu.
     + rewrite !upd_neq in Hs by assumption. exact Hs.
   - (* hb write *)
-    left. destruct (Htr _ _ _ _ _ Ehb) as [-> ->].
+    left. destruct (Htr _ _ _ _ _ _ Ehb) as [-> ->].
     destruct (Nat.eq_dec k i) as [->|Hk].
     + rewrite !upd_eq in Hs. right. rewrite Ehb. cbn.
       destruct Hs as [[u Hu]|Hu]; [injection Hu; intros; subst; reflexivity | exact Hu].
@@ -163,10 +163,10 @@ Proof.
   constructor.
   - (* HB_trunc *)
     pose proof (HB_trunc c s HI) as Htr.
-    inv_step Hstep; cbn [hb set_cs]; intros i' p' cr' j' fcr' H'; try (eapply Htr; eassumption).
+    inv_step Hstep; cbn [hb set_cs]; intros i' p' cr' j' fcr' sn' H'; try (eapply Htr; eassumption).
     all: try (destruct (Nat.eq_dec i' i) as [->|Hne]; [rewrite upd_eq in H'; try discriminate | rewrite upd_neq in H' by assumption; eapply Htr; eassumption]).
     + destruct (Nat.eq_dec i' (nexti s)) as [->|Hne]; [rewrite upd_eq in H'; discriminate | rewrite upd_neq in H' by assumption; eapply Htr; eassumption].
-    + injection H'; intros <- <- <- <-.
+    + injection H'; intros _ <- <- <- <-.
       destruct (wake_target s i p created due i0 created0 updated HI Ehb Ect Eb0) as [-> ->]. auto.
     + destruct (kill_hb_cases p (hb s) i') as [E|[E _]]; rewrite E in H'; [eapply Htr; eassumption | discriminate].
   - (* HB_uniq *)
@@ -229,7 +229,7 @@ Proof.
       destruct (Hcr _ _ _ H') as (H1 & H2 & H3).
       assert (i' <> i) by (intros ->; congruence). rewrite !upd_neq by assumption. auto.
     + (* hb write *)
-      destruct (Htr _ _ _ _ _ Ehb) as [-> ->].
+      destruct (Htr _ _ _ _ _ _ Ehb) as [-> ->].
       destruct (Hcr _ _ _ H') as (H1 & H2 & H3).
       assert (i' <> i) by (intros ->; congruence). rewrite !upd_neq by assumption. auto.
     + (* kill *)
@@ -246,7 +246,7 @@ Proof.
     + rewrite upd_neq by lia. apply Hfr. lia.
     + destruct (Hcr _ _ _ Ecs) as (_ & _ & H3). rewrite upd_neq by lia. apply Hfr; assumption.
     + apply (HB_file c s HI) in Ef. rewrite upd_neq by lia. apply Hfr; assumption.
-    + destruct (Htr _ _ _ _ _ Ehb) as [-> _].
+    + destruct (Htr _ _ _ _ _ _ Ehb) as [-> _].
       assert ((i < nexti s)%nat) by (apply Hlt; congruence). rewrite upd_neq by lia. apply Hfr; assumption.
   - (* HB_created_uniq *)
     pose proof (HB_created_uniq c s HI) as Hcu. pose proof (HB_created c s HI) as Hcr.
@@ -325,7 +325,7 @@ Record MInv (c : config) (s : state) : Prop := {
   M_nostale : forall t ec, cs s t <> CStale ec;
   M_hold : forall t i, cs s t = CHolding i ->
      (exists p cr due u, hb s i = HSleep p cr due /\ content s i = FMeta (Some cr) (Some u) /\ due = u + interval c) \/
-     (exists p cr, hb s i = HTrunc p cr i (Some cr) /\ content s i = FEmpty)
+     (exists p cr sn, hb s i = HTrunc p cr i (Some cr) sn /\ content s i = FEmpty)
 }.
 
 Lemma MInv_init c : MInv c init.
@@ -351,7 +351,7 @@ Proof.
   intros HB HM Hf Hc. destruct Hcfg as (Hint & Hdel & Hfac).
   destruct (M_owned c s HM i Hf) as [t [[ec Ho]|Ho]].
   - destruct (HB_created c s HB _ _ _ Ho) as (E & _). congruence.
-  - destruct (M_hold c s HM t i Ho) as [(p & cr' & due & u' & Hh & Hc' & Hd)|(p & cr' & Hh & Hc')]; [|congruence].
+  - destruct (M_hold c s HM t i Ho) as [(p & cr' & due & u' & Hh & Hc' & Hd)|(p & cr' & sn' & Hh & Hc')]; [|congruence].
     rewrite Hc in Hc'. injection Hc'; intros -> ->.
     pose proof (HB_sleep c s HB _ _ _ _ Hh) as Hs. unfold is_stale. apply Z.ltb_ge. lia.
 Qed.
@@ -498,11 +498,11 @@ Proof.
     + destruct (content s j) as [|fcr u|] eqn:Ect.
       * injection Hstep as <-. apply Hdone; [rewrite Ef; reflexivity|].
         intros t j' H ->. assert (j = i) by (pose proof (Mf t _ (or_intror H)); congruence); subst j.
-        destruct (Mh t i H) as [(p' & cr' & due' & u' & Hh & Hc' & Hd)|(p' & cr' & Hh & Hc')]; congruence.
+        destruct (Mh t i H) as [(p' & cr' & due' & u' & Hh & Hc' & Hd)|(p' & cr' & sn' & Hh & Hc')]; congruence.
       * destruct (checks c && negb (opt_eqb fcr (Some cr))) eqn:Eck.
         -- injection Hstep as <-. apply Hdone; [rewrite Ef; reflexivity|].
            intros t j' H ->. assert (j = i) by (pose proof (Mf t _ (or_intror H)); congruence); subst j.
-           destruct (Mh t i H) as [(p' & cr' & due' & u' & Hh & Hc' & Hd)|(p' & cr' & Hh & Hc')]; [|congruence].
+           destruct (Mh t i H) as [(p' & cr' & due' & u' & Hh & Hc' & Hd)|(p' & cr' & sn' & Hh & Hc')]; [|congruence].
            rewrite Ehb in Hh. injection Hh; intros _ <- _. rewrite Ect in Hc'. injection Hc'; intros _ ->.
            rewrite Hchk in Eck. cbn in Eck. rewrite Z.eqb_refl in Eck. discriminate.
         -- injection Hstep as <-.
@@ -510,15 +510,15 @@ Proof.
            rewrite <- Ef.
            constructor; cbn [cs file content hb]; [exact Mf | exact Mo | exact Mfile | exact Mn |].
            intros t j H. assert (j = i) by (pose proof (Mf t j (or_intror H)); congruence); subst j.
-           right. exists p, cr. rewrite !upd_eq. auto.
+           right. exists p, cr, (now s). rewrite !upd_eq. auto.
       * injection Hstep as <-. apply Hdone; [rewrite Ef; reflexivity|].
         intros t j' H ->. assert (j = i) by (pose proof (Mf t _ (or_intror H)); congruence); subst j.
-        destruct (Mh t i H) as [(p' & cr' & due' & u' & Hh & Hc' & Hd)|(p' & cr' & Hh & Hc')]; congruence.
+        destruct (Mh t i H) as [(p' & cr' & due' & u' & Hh & Hc' & Hd)|(p' & cr' & sn' & Hh & Hc')]; congruence.
     + injection Hstep as <-. apply Hdone; [rewrite Ef; reflexivity|].
       intros t j' H ->. pose proof (Mf t _ (or_intror H)); congruence.
   - (* heartbeat write *)
-    cbn [step] in Hstep. destruct (hb s i) as [| |p cr j fcr|] eqn:Ehb; try discriminate. injection Hstep as <-.
-    destruct (HB_trunc c s HB _ _ _ _ _ Ehb) as [-> ->].
+    cbn [step] in Hstep. destruct (hb s i) as [| |p cr j fcr sn|] eqn:Ehb; try discriminate. injection Hstep as <-.
+    destruct (HB_trunc c s HB _ _ _ _ _ _ Ehb) as [-> ->].
     constructor; cbn [cs file content hb now]; [exact Mf | exact Mo | exact Mfile | exact Mn |].
     intros t j H. destruct (Nat.eq_dec j i) as [->|Hne].
     + left. exists p, cr, (now s + interval c), (now s). rewrite !upd_eq. auto.
@@ -599,7 +599,7 @@ Qed.
     write its metadata and its heartbeat is not running *)
 Definition abandoned (s : state) (i : ino) : Prop :=
   file s = Some i /\ (forall t ec, cs s t <> CCreated ec i) /\
-  (forall p cr due, hb s i <> HSleep p cr due) /\ (forall p cr j fcr, hb s i <> HTrunc p cr j fcr).
+  (forall p cr due, hb s i <> HSleep p cr due) /\ (forall p cr j fcr sn, hb s i <> HTrunc p cr j fcr sn).
 
 Section PartD.
 Variable c : config.
@@ -618,7 +618,7 @@ Proof.
   - intros p cr due H. destruct (kill_hb_cases (cproc s t) (hb s) i) as [E|[E _]]; rewrite E in H; [|discriminate].
     assert (Hq := Hp p Hh ltac:(rewrite H; reflexivity)). subst p.
     unfold kill_hb in E. rewrite H in E. cbn in E. rewrite Nat.eqb_refl in E. discriminate.
-  - intros p cr j fcr H. destruct (kill_hb_cases (cproc s t) (hb s) i) as [E|[E _]]; rewrite E in H; [|discriminate].
+  - intros p cr j fcr sn H. destruct (kill_hb_cases (cproc s t) (hb s) i) as [E|[E _]]; rewrite E in H; [|discriminate].
     assert (Hq := Hp p Hh ltac:(rewrite H; reflexivity)). subst p.
     unfold kill_hb in E. rewrite H in E. cbn in E. rewrite Nat.eqb_refl in E. discriminate.
 Qed.
@@ -645,7 +645,7 @@ Proof.
   - destruct (cs s t) eqn:Ecs; try discriminate.
     assert (Hgen : forall x, (forall e, x <> CCreated e i) -> content (set_cs s t x) i = content s i /\
               file (set_cs s t x) = Some i /\ (forall t' e, cs (set_cs s t x) t' <> CCreated e i) /\
-              (forall p cr due, hb (set_cs s t x) i <> HSleep p cr due) /\ (forall p cr j fcr, hb (set_cs s t x) i <> HTrunc p cr j fcr)).
+              (forall p cr due, hb (set_cs s t x) i <> HSleep p cr due) /\ (forall p cr j fcr sn, hb (set_cs s t x) i <> HTrunc p cr j fcr sn)).
     { intros x Hx. cbn. split; [reflexivity|]. split; [assumption|]. split; [|auto].
       intros t' e. destruct (Nat.eq_dec t' t) as [->|Hne]; [rewrite upd_eq; apply Hx | rewrite upd_neq by assumption; apply Hnc]. }
     rewrite Hf in Hs. destruct (content s i); [destruct (S ec <? retries c)%nat | destruct (is_stale c (now s) created updated) |];
@@ -664,21 +664,21 @@ Proof.
     destruct (due <=? now s); [|discriminate]. rewrite Hf in Hs.
     assert (Hdone : content (State (now s) (Some i) (content s) (nexti s) (cs s) (cproc s) (tids s) (upd (hb s) i0 HDone) (lastcreate s)) i = content s i /\
               Some i = Some i /\ (forall t' e, cs s t' <> CCreated e i) /\
-              (forall p cr due, upd (hb s) i0 HDone i <> HSleep p cr due) /\ (forall p cr j fcr, upd (hb s) i0 HDone i <> HTrunc p cr j fcr)).
+              (forall p cr due, upd (hb s) i0 HDone i <> HSleep p cr due) /\ (forall p cr j fcr sn, upd (hb s) i0 HDone i <> HTrunc p cr j fcr sn)).
     { cbn. rewrite upd_neq by assumption. auto. }
     destruct (content s i) as [|fcr u|] eqn:Ect; try (injection Hs as <-; exact Hdone).
     destruct (checks c && negb (opt_eqb fcr (Some cr))) eqn:Eck; [injection Hs as <-; exact Hdone|].
     destruct (wake_target c Hchk s i0 p cr due i fcr u HB Ehb Ect Eck) as [E _]. contradiction.
   - (* heartbeat write: to its own inode *)
-    destruct (hb s i0) as [| |p cr j fcr|] eqn:Ehb; try discriminate. injection Hs as <-.
-    destruct (Htr _ _ _ _ _ Ehb) as [-> ->].
-    assert (Hne : i <> i0) by (intros ->; exact (Hnt _ _ _ _ Ehb)).
+    destruct (hb s i0) as [| |p cr j fcr sn|] eqn:Ehb; try discriminate. injection Hs as <-.
+    destruct (Htr _ _ _ _ _ _ Ehb) as [-> ->].
+    assert (Hne : i <> i0) by (intros ->; exact (Hnt _ _ _ _ _ Ehb)).
     cbn [file cs hb content] in *. rewrite !upd_neq by assumption. auto.
   - (* kill *)
     injection Hs as <-. cbn [file cs hb content] in *. split; [reflexivity|]. split; [assumption|]. split; [|split].
     + intros t' e H. destruct (kill_cs_cases p (cproc s) (cs s) t') as [E|[E _]]; rewrite E in H; [exact (Hnc _ _ H) | discriminate].
     + intros p' cr due H. destruct (kill_hb_cases p (hb s) i) as [E|[E _]]; rewrite E in H; [exact (Hns _ _ _ H) | discriminate].
-    + intros p' cr j fcr H. destruct (kill_hb_cases p (hb s) i) as [E|[E _]]; rewrite E in H; [exact (Hnt _ _ _ _ H) | discriminate].
+    + intros p' cr j fcr sn H. destruct (kill_hb_cases p (hb s) i) as [E|[E _]]; rewrite E in H; [exact (Hnt _ _ _ _ _ H) | discriminate].
 Qed.
 
 (** once the name points elsewhere (or nowhere) it never points to inode [i] again *)
